@@ -468,6 +468,7 @@ elif isinstance(doc, Fill):
     note='ok records that the free oracle agrees with the decisions the engine took; the decision indices are distinct, '
          'so an oracle with ok == True exists for every run (meta-argument, DESIGN 5.1)')
 
+C.fns[LAYOUT + ':best_layout'].shards = 12
 C.assume('existence of an agreeing oracle: the recorded decisions have pairwise distinct indices k (k only grows), '
          'hence some oracle satisfies ok; the theorem exists O. output == den(doc, O) follows (meta-argument)')
 C.assume('documents satisfy hlsafe (no literal hard line inside the flat rendering of a group); outside that shape the '
